@@ -23,6 +23,7 @@ open RdfModel RdfModel.C04
 #print axioms RdfModel.C04.facts_path_conditions
 #print axioms RdfModel.C04.facts_issuer
 #print axioms RdfModel.C04.facts_sorts
+#print axioms RdfModel.C04.facts_loop_control
 #print axioms RdfModel.C04.opts_hash_last_set_wins
 #print axioms RdfModel.C04.opts_hash_unset_keeps
 #print axioms RdfModel.C04.opts_prov_last_set_wins
